@@ -52,7 +52,16 @@ fn c15_cycle<K: Kt>(_a: &Args, s: &mut Session<K>, h: &History, upto: usize, n_r
     if let Err(e) = s.open(&cfg) {
         return Some(ctx.classify(finding(&["C02"], "reopen", upto, e)));
     }
-    let ro = History { kt: h.kt.clone(), cfg, keys: h.keys.clone(), ops: (0..n_ro).map(|_| read_only_op(rng, h.keys.len())).collect(), origin: "read-only session".into() };
+    // one call in five repeats the lookup before it (the same key asked for twice and three times in a row)
+    let mut ro_ops: Vec<Op> = Vec::with_capacity(n_ro);
+    for _ in 0..n_ro {
+        let prev = ro_ops.last().cloned();
+        match prev {
+            Some(p @ (Op::Get(_) | Op::Has(_) | Op::GetStr(_) | Op::BulkGet(_))) if rng.chance(1, 5) => ro_ops.push(p),
+            _ => ro_ops.push(read_only_op(rng, h.keys.len())),
+        }
+    }
+    let ro = History { kt: h.kt.clone(), cfg, keys: h.keys.clone(), ops: ro_ops, origin: "read-only session".into() };
     // call by call: an observing monitor (iteration, statistics) does not stop a history for a finding that
     // belongs to another property, so the foreign-findings counter is watched to learn which call went wrong
     let mut r = crate::session::RunResult { stop: None, calls: 0 };
@@ -250,18 +259,41 @@ pub fn c18_child(a: &Args) -> i32 {
     let Some((_p, h)) = History::from_text(&text) else { return 2 };
     let dir = PathBuf::from(a.get("dir").unwrap_or("/nonexistent"));
     let mut ctx = Ctx::new("C18", &[], &a.scratch, "child");
-    let res = run_history_kt(&h.kt, &dir, &h, &Mon::default(), &mut ctx);
-    match res.stop {
-        None => 0,
-        Some(Stop::Harness(m)) => {
-            println!("{m}");
-            2
+    // update calls must succeed; a spliced read-only call that answers wrongly does not end the run (this process is
+    // about the files): it is reported through exit code 4 and the parent still compares the images
+    fn go<K: Kt>(dir: &Path, h: &History, ctx: &mut Ctx) -> i32 {
+        let _ = std::fs::remove_dir_all(dir);
+        let mut s = match Session::<K>::create(dir, "m", &h.cfg) {
+            Ok(s) => s,
+            Err(e) => {
+                println!("create: {e}");
+                return 2;
+            }
+        };
+        let mon = Mon::default();
+        let mut bits = Rng::new(h.ops.len() as u64 ^ 0x5EED);
+        let mut wrong_reads = 0u32;
+        for (i, op) in h.ops.iter().enumerate() {
+            if let Err(f) = s.apply(i, op, &h.keys, &mon, ctx, bits.next()) {
+                if op.is_update() || matches!(op, Op::Reopen(_)) || op.is_sync() {
+                    println!("call {} failed: {}", f.at, f.msg);
+                    return 3;
+                }
+                wrong_reads += 1;
+                if wrong_reads == 1 {
+                    println!("read-only call {} answered wrongly (tolerated, the run goes on): {}", f.at, f.msg);
+                }
+            }
         }
-        Some(Stop::Violation(f)) | Some(Stop::Foreign(f)) => {
-            println!("call {} failed: {}", f.at, f.msg);
-            3
+        s.close();
+        if wrong_reads > 0 {
+            4
+        } else {
+            0
         }
     }
+    let kt = h.kt.clone();
+    with_kt!(kt.as_str(), go(&dir, &h, &mut ctx))
 }
 
 pub fn c18(a: &Args) -> Ctx {
@@ -281,6 +313,21 @@ pub fn c18(a: &Args) -> Ctx {
         let cfg = Cfg { buckets: Cfg::random_buckets(&mut rng, false), key: Cfg::random_buf(&mut rng), val: Cfg::random_buf(&mut rng), htx: Cfg::random_buf(&mut rng) };
         let mut gen = Gen::new(rng.next(), &ed);
         let mut ha = gen_history_kt(kt, &mut gen, &p, cfg, &format!("c18 run A shard={} i={i}", a.shard));
+        // one history per eight shards lives in the wide regime (files beyond 16 MiB, long keys, values of 1 and 2 MiB)
+        let (kt, cfg) = if i == 0 && a.shard % 8 == 5 {
+            ha = super::bigreg::history_for("bytes", "A", a.shard_seed(), false);
+            ctx.count("wide_regime_histories", 1);
+            ("bytes", ha.cfg)
+        } else {
+            (kt, cfg)
+        };
+        // one history per eight shards is the D2b regression (a new key takes over the slot of a record that just moved)
+        let (kt, cfg) = if i == 0 && a.shard % 8 == 1 {
+            ha = regression_histories().into_iter().filter(|h| h.origin.starts_with("regression D2b")).nth((a.shard / 8) % 2).unwrap();
+            ("bytes", ha.cfg)
+        } else {
+            (kt, cfg)
+        };
         // run A: updates only (plus reopen with the same parameters); run B: same updates, read-only calls and extra flushes spliced in
         ha.ops.retain(|o| o.is_update() || matches!(o, Op::Reopen(_)));
         for o in ha.ops.iter_mut() {
@@ -313,9 +360,16 @@ pub fn c18(a: &Args) -> Ctx {
         let hpath = a.scratch.join("c18_b.replay");
         let _ = std::fs::write(&hpath, hb.to_text("C18", None, ""));
         let _ = std::fs::remove_dir_all(&dir_b);
+        let mut wrong_read_note: Option<String> = None;
         let out = std::process::Command::new(&exe).args(["c18-child", "--history", &hpath.to_string_lossy(), "--dir", &dir_b.to_string_lossy(), "--scratch", &a.scratch.join("c18c").to_string_lossy()]).output();
         match out {
             Ok(o) if o.status.code() == Some(0) => {}
+            Ok(o) if o.status.code() == Some(4) => {
+                // the second run finished, but one of its spliced read-only calls answered wrongly: the images are
+                // compared all the same (if they differ the reads changed what the updates wrote); the wrong answer as
+                // such belongs to the property of that call
+                wrong_read_note = Some(String::from_utf8_lossy(&o.stdout).trim().to_string());
+            }
             Ok(o) if o.status.code() == Some(3) => {
                 let st = ctx.classify(finding(&["C01"], "child_call_failed", 0, String::from_utf8_lossy(&o.stdout).to_string()));
                 ctx.record_stop(st, Some(&hb));
@@ -358,6 +412,11 @@ pub fn c18(a: &Args) -> Ctx {
             let st = ctx.classify(f);
             ctx.record_stop(st, Some(&hb));
             break;
+        }
+        if let Some(note) = wrong_read_note {
+            // same files, yet a read answered wrongly: not a matter of determinism
+            let st = ctx.classify(finding(&["C01"], "wrong_read_in_second_run", 0, note));
+            ctx.record_stop(st, Some(&hb));
         }
         let _ = std::fs::remove_dir_all(&dir_a);
         let _ = std::fs::remove_dir_all(&dir_b);
